@@ -378,6 +378,8 @@ Section Api.
           bindv (copy_at (cm_fac vt) FUEL d h0) (fun pv h1 =>      (* copy.deepcopy(self._defaults) *)
             match pv, kwv with
             | VR p, VR kw =>
+              (* `self._defaults = {}` in __init__: always a dict *)
+              if negb (is_dict h1 pv) then (h1, RExc "TypeError") else
               bindv (if la then create_loop p kw list_properties h1 else (h1, RVal pv)) (fun _ h2 =>
                 match mapping_entries h2 kwv with
                 | None => (h2, RExc "TypeError")
